@@ -83,6 +83,20 @@ CLAIMED["C14"] = dict(
     technique="Coq proof (sort stability + shuffle equivariance) + recorded-shuffle differential correspondence",
     design="5/C14")
 
+CLAIMED["C03"] = dict(
+    text=("Order-faithful model of ObservedPeptides.generate_protein_groups (stale position index, early-exit superset search, "
+          "stable sort by peptide count) and of no / pseudo-gene grouping. Proof in two layers for EVERY peptide->proteins map: an "
+          "abstract loc/alive machine with a five-clause loop invariant, and a refinement proof that the concrete slot store "
+          "implements it; hence every observed protein is in exactly one non-empty group, the leading protein's peptide set "
+          "contains every member's, no leader's set is contained in that of a protein outside its group, and leaders' sets are "
+          "exactly the distinct inclusion-maximal sets (count). No-grouping singletons proved. Pseudo-gene = connected components is "
+          "NOT proved (model tied by correspondence, property monitored on the implementation's output). Correspondence: exact "
+          "list-of-lists agreement on incidence structures (all 4x4 structures in the thorough tier) and random larger ones."),
+    note=COMMON_NOTE + "Theorems assume distinct peptide keys (a Python dict). networkx.connected_components re-implemented "
+         "as a fuel-bounded closure and tied by correspondence only; pseudo-gene component theorem missing (partial). Axioms: none.",
+    technique="Coq loop-invariant + refinement proof (abstract loc/alive machine <- concrete slot store) + differential correspondence",
+    design="5/C03")
+
 ALL = [f"C{i:02d}" for i in range(1, 21)]
 
 
